@@ -243,6 +243,10 @@ func c08Run(c *Ctx) {
 			if len(fail) > 0 && n%2 == 1 {
 				cs.Garble = true
 			}
+			// every third case expands a root as a program builds it (the decoder is not the only way to a value)
+			if n%3 == 0 {
+				cs.Program = true
+			}
 			c.Res.States++
 			o := errorsCheck(c, cs)
 			c.Res.Evaluations++
